@@ -117,6 +117,10 @@ def _known_keys():
     return set(checkmod.load_known())
 
 
+# measured on the 80 probes / 118 seeded changes: strict reporting costs 3 more false alarms and gains no detection (DESIGN.md 2.2a)
+STRICT_VIEWS = os.environ.get('VERIF_STRICT_VIEWS', '0') == '1'
+
+
 def run_best(facts_dir):
     """Analyse the raw program and, if some obligation fails there and the tree contains helper functions that the pinned
     tree does not have, the normalised view in which those helpers are inlined into their callers (flatten.py). Both views
@@ -132,8 +136,15 @@ def run_best(facts_dir):
     except Exception:
         known = set()
 
+    from props import PROPS
+
+    def missing_rules(R, p):
+        # fail closed: a rule id that was confirmed for the property on the pinned tree and produced no instance in this view
+        have = {o['rule'] for o in R.for_prop(p)}
+        return [r for r in PROPS.get(p, {}).get('expect_rules', []) if r not in have]
+
     def nfail(R, p):
-        return sum(1 for o in R.for_prop(p) if not o['ok'] and (p, '%s|%s' % (o['rule'], o['key'])) not in known)
+        return sum(1 for o in R.for_prop(p) if not o['ok'] and (p, '%s|%s' % (o['rule'], o['key'])) not in known) + len(missing_rules(R, p))
     if any(nfail(R0, p) for p in ALL_PROPS):
         try:
             cands = flatten.helper_candidates(F0)
@@ -147,8 +158,24 @@ def run_best(facts_dir):
             info['flatten_error'] = '%r\n%s' % (e, traceback.format_exc())
     per_prop, chosen = {}, {}
     for p in ALL_PROPS:
-        best = min(range(len(views)), key=lambda i: (nfail(views[i][1], p), i))
+        def rank(i):
+            R_ = views[i][1]
+            n_ = nfail(R_, p)
+            if n_ == 0:
+                return (0, 0, 0, i)
+            # both views fail: report the one that names a construct (a rule violation) rather than a lost anchor, then the shorter list
+            real = any(not o['ok'] and o['status'] == 'VIOLATION' and (p, '%s|%s' % (o['rule'], o['key'])) not in known for o in R_.for_prop(p))
+            return (1, 0 if real else 1, n_, i)
+        best = min(range(len(views)), key=rank)
+        # a property that holds in the raw view is still reported if the normalised view (same program, helpers and adaptor closures
+        # made explicit) names a construct that violates a rule: the raw rules can be blind to what a generic helper or a closure does
+        if best == 0 and len(views) > 1 and STRICT_VIEWS:
+            R_ = views[1][1]
+            if any(not o['ok'] and o['status'] == 'VIOLATION' and (p, '%s|%s' % (o['rule'], o['key'])) not in known for o in R_.for_prop(p)):
+                best = 1
         chosen[p] = views[best][0]
         per_prop[p] = [dict(o, props=(p,)) for o in views[best][1].for_prop(p)]
+        for r in missing_rules(views[best][1], p):
+            per_prop[p].append(dict(rule=r, key='floor:rule-present', ok=False, msg='rule %s produced no instance for %s (anchor lost?)' % (r, p), where='', props=(p,), witness=None, status='FLOOR'))
     info['chosen'] = chosen
     return F0, roles0, MergedReport(per_prop, chosen), info
